@@ -647,6 +647,10 @@ func c16FractionTable(c *Ctx, r *Report) {
 				for i := 0; i < 9-k; i++ {
 					pow *= 10
 				}
+				if width < 0 || div < 0 {
+					r.Undecided("R16.6", key, c.Rel(cl.Pos()), "the width or the divisor of this appender is not a constant in its closure: the table cannot be read")
+					continue
+				}
 				r.Check(width == k && div == pow, "R16.6", key, c.Rel(cl.Pos()), fmt.Sprintf("width %d, divisor %d", width, div),
 					fmt.Sprintf("the appender for %s prints width %d after dividing the nanoseconds by %d; %d decimal places need width %d and divisor %d", key, width, div, k, k, pow))
 			}
